@@ -466,6 +466,36 @@ func ruleSIB3(w *World) []Ob {
 			why = checkRow(cases, "colorize(cs,n)", true)
 		}
 		if why != "" {
+			// the same decision with the case engine: any spelling (guard building a prefix, if/else, helper) of
+			// isRoot ? colorize+"\n" : branch+" "+colorize+"\n"
+			var cur *ssa.Parameter
+			for _, prm := range fn.Params {
+				if isNodePtr(prm.Type()) && cur == nil {
+					cur = prm
+				}
+			}
+			if cur != nil {
+				ev := newCaseEval(spec.p, cur)
+				groups := byAtom(ev.cases(base, 0), "isRoot(n)")
+				norm := func(ts []string) []string {
+					var out []string
+					for _, t := range ts {
+						for _, r := range recvNames(fn) {
+							t = strings.ReplaceAll(t, "("+r+",", "(R,")
+						}
+						out = append(out, t)
+					}
+					return out
+				}
+				gt, gf := norm(groups["true"]), norm(groups["false"])
+				if len(gt) == 1 && gt[0] == `cat(colorize(R,n),"\n")` && len(gf) == 1 && gf[0] == `cat(branch(n)," ",colorize(R,n),"\n")` && len(groups["*"]) == 0 {
+					why = ""
+				} else {
+					why += fmt.Sprintf(" (as cases: root %v, child %v, unconditional %v)", gt, gf, groups["*"])
+				}
+			}
+		}
+		if why != "" {
 			l.bad(spec.name, "row accumulated per node", spec.p.Pos(fn.Pos()), why, "row")
 		} else {
 			l.ok(spec.name, "row accumulated per node", spec.p.Pos(fn.Pos()), "isRoot ? colorize(n)+\"\\n\" : branch+\" \"+colorize(n)+\"\\n\", children appended after it", true, "row")
@@ -491,13 +521,23 @@ func ruleSIB3(w *World) []Ob {
 		}
 		found := false
 		scan := []*ssa.Function{fn}
-		allInstrs(fn, func(in ssa.Instruction) {
-			if c, ok := in.(*ssa.Call); ok {
-				if f := c.Common().StaticCallee(); f != nil && p.InModule(f) && f != fn && strings.Contains(recvTypeName(f), "olorize") && fname(f) != "spreadBranch" && fname(f) != "summary" && fname(f) != "write" {
-					scan = append(scan, f)
-				}
+		// helpers the report was moved into: everything reachable (calls and function values) that is not one of
+		// the vocabulary functions the report term is stated in
+		stop := func(f *ssa.Function) bool {
+			switch fname(outermost(f)) {
+			case "spreadBranch", "summary", "write", "colorize":
+				return f != fn
 			}
-		})
+			return false
+		}
+		var reach []*ssa.Function
+		for f := range reachableFrom(p, []*ssa.Function{fn}, stop) {
+			if f != fn {
+				reach = append(reach, f)
+			}
+		}
+		sort.Slice(reach, func(i, j int) bool { return p.FuncID(reach[i]) < p.FuncID(reach[j]) })
+		scan = append(scan, reach...)
 		for _, sf := range scan {
 			allInstrs(sf, func(in ssa.Instruction) {
 				c, ok := in.(*ssa.Call)
@@ -596,12 +636,30 @@ func ruleSIB3(w *World) []Ob {
 	} else {
 		l.undecided("(*gtree.defaultGrower).assembleBranchFinally", "row baked into the branch", "-", "function not found", "row")
 	}
-	for _, name := range []string{"(*gtree.defaultSpreader).spreadBranch", "(*gtree.colorizeSpreader).spreadBranch"} {
-		fn := pw.Func(name)
-		if fn == nil {
-			l.undecided(name, "printer concatenates baked branches", "-", "function not found", "row")
+	// the tinywasm printers, by role: the recursive functions of the variant that take a node and return its text
+	var wPrinters []*ssa.Function
+	for _, f := range libFuncs(pw) {
+		if !wOnlyFunc(w, f) || f.Parent() != nil || !callsItself(f) || f.Signature.Results().Len() != 1 {
 			continue
 		}
+		if b, ok := f.Signature.Results().At(0).Type().Underlying().(*types.Basic); !ok || b.Info()&types.IsString == 0 {
+			continue
+		}
+		hasNode := false
+		for _, prm := range f.Params {
+			if isNodePtr(prm.Type()) && !(f.Signature.Recv() != nil && prm == f.Params[0]) {
+				hasNode = true
+			}
+		}
+		if hasNode {
+			wPrinters = append(wPrinters, f)
+		}
+	}
+	if len(wPrinters) < 2 {
+		l.undecided("tinywasm printers", "printer concatenates baked branches", "-", fmt.Sprintf("expected the text and the dry-run printer of the variant (recursive node → string functions), found %d", len(wPrinters)), "row")
+	}
+	for _, fn := range wPrinters {
+		name := pw.FuncID(fn)
 		var base ssa.Value
 		allInstrs(fn, func(in ssa.Instruction) {
 			ph, ok := in.(*ssa.Phi)
